@@ -103,14 +103,14 @@ Fixpoint shape (d : nat) (n : node) : Prop :=
   n_count n <= n_cap n /\ 0 < n_cap n <= maxCap /\
   match d with
   | 0 => n_children n = []
-  | S d' => length (n_children n) = S (n_count n) /\ Forall (shape d') (n_children n)
+  | S d' => length (n_children n) = S (n_count n) /\ Forall (shape d') (n_children n) /\ n_cap n = maxCap
   end.
 
 Lemma shape_height d n : shape d n -> height n = d.
 Proof.
   revert n; induction d; intros [cap ks cs] (H1 & H2 & H3); simpl in *.
   - subst. reflexivity.
-  - destruct H3 as [L F]. destruct cs as [|c cs]; simpl in *; [lia|].
+  - destruct H3 as (L & F & _). destruct cs as [|c cs]; simpl in *; [lia|].
     inversion F; subst. f_equal. apply IHd. assumption.
 Qed.
 
@@ -131,11 +131,11 @@ Lemma shape_S_internal d n : shape (S d) n -> is_leaf n = false.
 Proof. intros (_ & _ & L & _). unfold is_leaf. destruct (n_children n); simpl in *; [lia | reflexivity]. Qed.
 
 Lemma shape_child d n c ch : shape (S d) n -> nth_error (n_children n) c = Some ch -> shape d ch.
-Proof. intros (_ & _ & _ & F) H. eapply Forall_nth_error; eauto. Qed.
+Proof. intros (_ & _ & _ & F & _) H. eapply Forall_nth_error; eauto. Qed.
 
 Lemma shape_child_ex d n c : shape (S d) n -> c <= n_count n -> exists ch, nth_error (n_children n) c = Some ch /\ shape d ch.
 Proof.
-  intros S Hc. pose proof S as (_ & _ & L & F).
+  intros S Hc. pose proof S as (_ & _ & L & F & Cpx).
   destruct (nth_error_ex (n_children n) c) as [ch E]; [lia|]. exists ch; split; auto. eapply shape_child; eauto.
 Qed.
 
@@ -194,3 +194,4 @@ Proof.
 Qed.
 
 End Base.
+
